@@ -163,7 +163,7 @@ class Gen:
         r = self.rng
         k, kind = fault
         mk = "i" if kind == "i" else "t"
-        api = r.choice(["RP", "RP", "CA", "CO", "EX", "TR", "TG"])
+        api = r.choice(["RP", "RP", "CA", "CO", "EX", "TR", "TG", "ER"])
         self.pid = 0
         if api == "RP":
             b, jb = self.beh(d)
@@ -178,6 +178,11 @@ class Gen:
             o = self.fresh("O")
             self.prelude.append("var %s = { get x(){ %s } };" % (o, jb))
             return ["TG", str(k), mk] + b, {"api": "TG", "obj": o, "k": k, "kind": kind}
+        if api == "ER":
+            b, jb = self.beh(d)
+            o = self.fresh("E")
+            self.prelude.append("var %s = { toString(){ %s } };" % (o, jb))
+            return ["ER", str(k), mk] + b, {"api": "ER", "obj": o, "k": k, "kind": kind}
         ops, t = self.goops(d, top=True)
         return ["TR", str(k), mk] + t, {"api": "TR", "ops": ops, "k": k, "kind": kind}
 
@@ -306,6 +311,9 @@ def regression_seeds():
             m = ["Y", "0", "1"] + m + ["K", "K"]
             js = "try { %s } finally { ; }" % js
         s.append(H(-1, [["CA", "0", "0", "t"] + m], [{"api": "CA", "fn": "FA", "n": 0, "k": 0, "kind": "t"}], "function FA(){ %s }" % js))
+    # 5151c81: err.Error() on an Exception whose toString is interrupted must not leave the runtime interrupted
+    s.append(H(-1, [["ER", "1", "i", "P", "1"], ["RP", "0", "t", "P", "1"]],
+               [{"api": "ER", "obj": "E1", "k": 1, "kind": "i"}, {"api": "RP", "src": "P(1);", "k": 0, "kind": "t"}], "var E1 = { toString(){ P(1); } };"))
     # 379f30d: a throw inside `finally` must not be caught by the statement's own catch
     s.append(H(-1, [["RP", "0", "t", "Y", "1", "0", "Y", "1", "1", "P", "1", "P", "2", "S", "P", "3", "T", "P", "4", "K"]],
                [{"api": "RP", "src": "try { try { P(1); } catch(e1) { P(2); } finally { P(3); throw new Error('t'); } } catch(e2) { P(4); }", "k": 0, "kind": "t"}]))
@@ -316,7 +324,7 @@ def regression_seeds():
 
 
 WILD_SEEDS = [
-    # still unrepaired (known: defect:generator-create-overflow): overflow while a generator / async activation is created
+    # repaired by 25ae49c (defect:generator-create-overflow): overflow while a generator / async activation is created
     {"max": 1, "prelude": "", "calls": [{"api": "RP", "src": "async function f(){ await 1 } f()", "k": 0, "kind": "t"}], "natives": {}},
     {"max": 1, "prelude": "", "calls": [{"api": "RP", "src": "var g=(function*(){ yield 1 })(); g.next()", "k": 0, "kind": "t"}], "natives": {}},
     # F3 variant / F6 generator marker leak (e8f901b) originals
@@ -347,7 +355,7 @@ def judge_impl(h, line):
             bad.append((i, "host-panic:" + c[0][:120]))
         if c[2] != IDLE:
             f = [FIELDS[j] for j, (a, b) in enumerate(zip(c[2].split(","), IDLE.split(","))) if a != b]
-            if i < len(h["calls"]) and h["calls"][i]["api"] in ("TR", "TG") and c[0] in ("ok", "ex") and "jobQueue" in f:
+            if i < len(h["calls"]) and h["calls"][i]["api"] in ("TR", "TG", "ER") and c[0] in ("ok", "ex") and "jobQueue" in f:
                 f.remove("jobQueue")     # Runtime.Try is not a "run": jobs wait for the next leave() (C10's concern)
             if f:
                 bad.append((i, "not-idle:" + "+".join(f)))
@@ -543,8 +551,8 @@ def main(ctx):
 
 
 def classify(h, bad, line):
-    """Signature of the one defect that is still unrepaired in /repo (known_findings.d/C03.json,
-    fixes/C03-generator-create-overflow.diff): the shrunk history must be a single call under a depth limit that ends
+    """Signature of the generator-create-overflow defect (repaired by 25ae49c; the entry in known_findings.d/C03.json
+    is `fixed` and suppresses nothing, so a recurrence alarms under this name): the shrunk history must be a single call under a depth limit that ends
     with an uncatchable, leaves at least one try frame behind (the stale generator marker; sp / call / iter / ref
     records may follow from the boundary restoring from the wrong frame), and its source must create a generator or
     async activation.  Anything else keeps its own `leak:` signature."""
@@ -623,6 +631,9 @@ def source_facts(ctx):
     expected = {
         ("vm.go", "try"), ("vm.go", "runTryInner"), ("runtime.go", "RunProgram"), ("runtime.go", "runWrapped"),
         ("runtime.go", "Try"), ("runtime.go", "compileAST"), ("runtime.go", "tryFunc"), ("builtin_typedarrays.go", "*"),
+        # fe5ea29 + 5151c81: Exception.valueString = vm.try(obj.String()) + a recover that swallows an uncatchable after
+        # leaveAbrupt at depth 0 — the control path of the model's `tryGet` (API kind ER)
+        ("runtime.go", "valueString"),
     }
     found = {}
     srcs = {}
@@ -672,6 +683,9 @@ def source_facts(ctx):
         ("runtime.go", "func (r *Runtime) runWrapped("): [
             "if len(r.vm.callStack) == 0 {\n\t\t\t\t\tr.leaveAbrupt()", "ex := r.vm.try(f)", "if len(r.vm.callStack) == 0 {\n\t\tr.leave()"],
         ("runtime.go", "func (r *Runtime) Try("): ["if len(r.vm.callStack) == 0 && asUncatchableException(x) != nil {\n\t\t\t\tr.leaveAbrupt()", "return r.vm.try(f)"],
+        ("runtime.go", "func (e *Exception) valueString("): [
+            "if r := obj.runtime; len(r.vm.callStack) == 0 && asUncatchableException(x) != nil {\n\t\t\t\tr.leaveAbrupt()",
+            "if ex := obj.runtime.vm.try(func() {\n\t\ts = obj.String()"],
         ("runtime.go", "func (r *Runtime) leaveAbrupt("): ["r.jobQueue = nil", "r.ClearInterrupt()", "r.vm.prg = nil", "r.vm.sb = -1"],
         ("runtime.go", "func (r *Runtime) leave("): ["for len(r.jobQueue) > 0 {", "jobs, r.jobQueue = r.jobQueue, jobs[:0]", "r.jobQueue = nil"],
     }
